@@ -84,7 +84,14 @@ class Scratch:
 
     def __init__(self, tag):
         # tools/run_seeded.sh holds this lock while /repo carries a seeded patch (a few seconds): do not snapshot then
-        while os.path.exists("/tmp/verif-repo-patched.lock") and not os.environ.get("VERIF_IGNORE_LOCK"):
+        # (a lock older than two minutes is stale - a killed sweep - and is ignored)
+        lock = "/tmp/verif-repo-patched.lock"
+        while not os.environ.get("VERIF_IGNORE_LOCK"):
+            try:
+                if time.time() - os.path.getmtime(lock) > 120:
+                    break
+            except OSError:
+                break
             time.sleep(1)
         base = os.environ.get("VERIF_SCRATCH_BASE", "/tmp")
         self.dir = tempfile.mkdtemp(prefix="dryoc-verif-%s-" % tag, dir=base)
